@@ -77,6 +77,11 @@ def run_checks(patch, props, tier="quick"):
                     res[p]["replay_head"] = f"unreadable: {ex}"
     finally:
         sh(["git", "-C", REPO, "checkout", "--", "."])
+        # the generated Coq files were regenerated from the MUTATED tree: regenerate them from the clean one
+        sh(["/venv/bin/python", "-c",
+            "import sys; sys.path.insert(0, %r); import core; print(core.regenerate(['CrcTables.v', 'TlbImpl.v', 'TlSchemaTable.v'], []))"
+            % os.path.join(VERIF, "harness")], cwd=VERIF,
+           env={"PYTHONPATH": REPO, "PYTHONHASHSEED": "0", "PYTONIQ_CORE_VERIF": "1"}, timeout=1200)
     return res
 
 
